@@ -139,8 +139,9 @@ def build_program(spec):
     return prog
 
 
-def run_spec(spec, backend, cutoff=8, hbar=2, np_seed=None):
-    """One engine run; sf.hbar is set for the duration of the run (state objects remember it)."""
+def run_spec(spec, backend, cutoff=8, hbar=2, np_seed=None, modes=None):
+    """One engine run; sf.hbar is set for the duration of the run (state objects remember it).  modes: the run option of the same
+    name (the engine then returns the reduced state of these modes, in this order)."""
     old = sf.hbar
     sf.hbar = hbar
     try:
@@ -157,7 +158,7 @@ def run_spec(spec, backend, cutoff=8, hbar=2, np_seed=None):
             eng = sf.Engine("fock", backend_options={"cutoff_dim": cutoff, "pure": False})
         else:
             raise ValueError(backend)
-        return eng.run(prog).state
+        return eng.run(prog).state if modes is None else eng.run(prog, modes=list(modes)).state
     finally:
         sf.hbar = old
 
@@ -290,13 +291,17 @@ def observe_bosonic(st, hbar, dm_cutoff=None):
     v = gaussian_physical(means, cov, hbar, extra=noise * mscale / s)
     if v:
         return v, {}
+    own = _photons_from_moments(means, cov, hbar)
     try:
         ph, bad = _api_photons(st, n, 1e-9 + noise * mscale)
     except ValueError as e:
-        return "mean_photon-complex(%s)" % str(e)[:40], {}
+        # BaseBosonicState.mean_photon refuses an imaginary part above 100 machine epsilons; the rounding noise of the component sum is
+        # eps * sum |w_i| (3e-11 for Fock(2)), so for such states the API cannot be consulted and the moments are used instead
+        if noise * mscale < 1e-14:
+            return "mean_photon-complex(%s)" % str(e)[:40], {}
+        ph, bad = list(own), None
     if bad:
         return bad, {}
-    own = _photons_from_moments(means, cov, hbar)
     for i in range(n):
         if abs(ph[i] - own[i]) > (1e-7 + noise * mscale / s) * (1 + abs(own[i])):
             return "mean_photon-inconsistent-with-cov(mode %d: %.9g vs %.9g)" % (i, ph[i], own[i]), {}
@@ -318,7 +323,7 @@ def observe_bosonic(st, hbar, dm_cutoff=None):
         v = _q_function_violation(w, mu, cv, hbar, rs)
         if v:
             return v, {}
-    if dm_cutoff and np.abs(mu.imag).max() < 1e-12 and np.abs(w.imag).max() < 1e-12:
+    if dm_cutoff and len(w) > 1 and n <= 5 and np.abs(mu.imag).max() < 1e-12 and np.abs(w.imag).max() < 1e-12:
         # (complex component means: thewalrus is not analytic in them, recorded under C16 and C07's corpus)
         for i in range(n):
             rho = np.array(st.reduced_dm([i], cutoff=dm_cutoff))
@@ -341,6 +346,8 @@ def fock_matrix(st, n, cutoff):
 
 def observe_fock(st, n, cutoff, tol=1e-9, psd_tol=1e-7):
     mat = fock_matrix(st, n, cutoff)
+    if not np.isfinite(mat).all():
+        return "dm-not-finite", {}
     tr = float(np.real(np.trace(mat)))
     if np.abs(mat - mat.conj().T).max() > tol:
         return "dm-not-hermitian", {}
@@ -503,8 +510,11 @@ def gen_circuit_case(rng, backend):
     if n >= 10 and not any(max(c[2]) >= 9 for c in tail):
         tail.append(bc.weak_cmd(rng, n, ["BSgate"]))
         tail[-1][2] = [n - 1, rng.randrange(n - 1)] if rng.random() < 0.5 else [rng.randrange(n - 1), n - 1]
-    return {"check": "phys", "backend": backend, "mode": mode, "n": n, "hbar": hbar, "cutoff": FOCK_CUTOFF[n] if fock else 0,
-            "pre": pre, "tail": tail, "np_seed": rng.randrange(2 ** 31), "stepwise": not fock}
+    d = {"check": "phys", "backend": backend, "mode": mode, "n": n, "hbar": hbar, "cutoff": FOCK_CUTOFF[n] if fock else 0,
+         "pre": pre, "tail": tail, "np_seed": rng.randrange(2 ** 31), "stepwise": not fock}
+    if n >= 2 and rng.random() < 0.35:
+        d["sub"] = rng.sample(range(n), rng.randint(1, min(n, 4)))
+    return d
 
 
 class CaseTimeout(Exception):
@@ -541,8 +551,11 @@ def _eval_steps(d):
     cuts = list(range(len(tail) + 1)) if d.get("stepwise") else [0, len(tail)]
     exact = bool(d.get("exact"))
     kw = {"tol": 1e-10, "psd_tol": 1e-9} if exact else {}
-    if d.get("dm_cutoff"):
-        kw["dm_cutoff"] = d["dm_cutoff"]
+    if "dm_cutoff" in d:
+        if d["dm_cutoff"]:
+            kw["dm_cutoff"] = d["dm_cutoff"]
+    elif backend == "bosonic":
+        kw["dm_cutoff"] = 10
     prev = None
     for idx, j in enumerate(cuts):
         spec = {"n": n, "cmds": pre + tail[:j]}
@@ -555,6 +568,8 @@ def _eval_steps(d):
             raise
         except Exception as e:
             return ("physical:%s:raises:%s:%s" % (b, type(e).__name__, opsig(step or pre)), "running %s raised %r" % (step or "the prefix", e))
+        if v == "dm-not-finite" and any(c[0] in ("MeasureHomodyneSel", "MeasureHeterodyneSel", "MeasureFockSel") for c in spec["cmds"]):
+            return "skip"      # post-selection on an outcome of probability zero (the Fock homodyne projection divides by the norm without a check)
         if v:
             return ("physical:%s:%s:%s" % (b, v.split("(")[0], opsig(step or pre)), "state after %s on %s (hbar %s) is not physical: %s" % (step or pre, backend, hbar, v))
         if exact and abs(m["trace"] - 1) > 1e-9:
@@ -586,6 +601,19 @@ def _eval_steps(d):
             if 1 - m["trace"] > 1e-8 + 200 * m["top"]:
                 return ("fock:trace-lost-without-truncation:%s" % opsig(pre), "%s lost %.3g of the trace while the population next to the cutoff is %.3g" % (pre, 1 - m["trace"], m["top"]))
         prev = m
+    if d.get("sub"):
+        # the reduced state of an ordered subset of the modes, as returned by eng.run(prog, modes=...)
+        try:
+            st = run_spec({"n": n, "cmds": pre + tail}, backend, cutoff, hbar, d.get("np_seed"), modes=d["sub"])
+            v, m = observe(st, backend, len(d["sub"]), cutoff, hbar, **kw)
+        except ZeroDivisionError:
+            return "skip"
+        except CaseTimeout:
+            raise
+        except Exception as e:
+            return ("physical:%s:raises:%s:reduced-state" % (b, type(e).__name__), "asking for the state of modes %s raised %r" % (d["sub"], e))
+        if v:
+            return ("physical:%s:%s:reduced-state" % (b, v.split("(")[0]), "the state of modes %s after %s on %s (hbar %s) is not physical: %s" % (d["sub"], tail, backend, hbar, v))
     return None
 
 
@@ -603,8 +631,38 @@ def run_family(ctx, gen, count, bucket_fn, nontriv_fn):
             ctx.counterexample(r[0], r[1], d)
 
 
+def gen_measure_case(rng, backend):
+    """Two-mode squeezed (optionally shared with a third mode, displaced) states, then one or two measurements of any kind the
+    backend offers: every conditional state must be physical, whatever the outcome."""
+    n = rng.choice([2, 2, 3])
+    hbar = rng.choice(HBARS)
+    a, b = rng.sample(range(n), 2)
+    pre = [["S2gate", [round(rng.uniform(0.45, 1.0), 3) * rng.choice([1, -1]), round(rng.uniform(-3, 3), 3)], [a, b], False]]
+    if n == 3:
+        c = 3 - a - b
+        pre.append(["BSgate", [round(rng.uniform(0.3, 1.2), 3), round(rng.uniform(-2, 2), 3)], rng.choice([[a, c], [c, b], [b, c]]), False])
+    for m in range(n):
+        if rng.random() < 0.5:
+            pre.append(["Dgate", [round(rng.uniform(0.1, 0.8), 3), round(rng.uniform(-3, 3), 3)], [m], False])
+    if rng.random() < 0.3:
+        pre.append(["ThermalLossChannel", [round(rng.uniform(0.6, 0.95), 3), round(rng.uniform(0.0, 0.4), 3)], [rng.randrange(n)], False])
+    names = ["MeasureHomodyneSel", "MeasureHeterodyneSel", "MeasureHomodyne", "MeasureHeterodyne"] + (["MeasureThreshold"] * 3 + ["MSgate"] if backend == "bosonic" else [])
+    tail = []
+    for _ in range(rng.randint(1, 2)):
+        cmd = extra_cmd(rng, n, rng.choice(names), hbar)
+        if cmd[0] == "MeasureThreshold" and any(c[0].startswith("Measure") and c[2] == cmd[2] for c in tail):
+            continue        # (known finding: threshold detection of a mode that is already in vacuum)
+        tail.append(cmd)
+        if rng.random() < 0.4:
+            tail.append(bc.weak_cmd(rng, n, UNITARY))
+    return {"check": "phys", "backend": backend, "mode": "measure", "n": n, "hbar": hbar, "cutoff": 0, "pre": pre, "tail": tail,
+            "np_seed": rng.randrange(2 ** 31), "stepwise": True}
+
+
 def search_circuits(ctx):
     rng = ctx.rng
+    for backend, cnt in ctx.budget({"gaussian": 40, "bosonic": 70}, {"gaussian": 400, "bosonic": 700}).items():
+        run_family(ctx, lambda: gen_measure_case(rng, backend), cnt, lambda d: "phys-%s-measure" % d["backend"], lambda d: True)
     per = ctx.budget({"gaussian": 260, "bosonic": 220, "fock-pure": 16, "fock-mixed": 14},
                      {"gaussian": 2600, "bosonic": 2200, "fock-pure": 140, "fock-mixed": 110})
     for backend, cnt in per.items():
@@ -736,25 +794,26 @@ def _ket_cmd(rng, c, modes, budget, as_dm):
 
 
 def gen_fock_many_modes_case(rng, two_mode=True):
-    """10 modes at cutoff 2 with a single photon: passive gates and loss on mode indices up to 9 (pure representation)."""
+    """10 modes at cutoff 2, one photon shared by mode 9 and another mode (a Ket on the whole register keeps the pure representation):
+    gates on mode indices up to 9.  quick: matrix-multiplication path only (each new tensor rank costs a numba compilation of the
+    two-mode kernels); thorough: beam splitters as well."""
     n, c = 10, 2
-    if not two_mode:     # matrix-multiplication path only (each new tensor rank costs a numba compilation of the two-mode kernels)
-        pre = [["Fock", [1], [9], False], ["Fock", [1], [rng.randrange(9)], False]]
-        tail = [["Rgate", [round(rng.uniform(-3, 3), 3)], [9], False], ["CKgate", [round(rng.uniform(-3, 3), 3)], rng.choice([[9, pre[1][2][0]], [pre[1][2][0], 9]]), False],
-                ["LossChannel", [round(rng.uniform(0.2, 0.8), 3)], [9], False], ["Kgate", [round(rng.uniform(-3, 3), 3)], [pre[1][2][0]], False]]
-        return {"check": "fock-exact", "backend": "fock-pure", "mode": "many-modes", "n": n, "hbar": 2, "cutoff": c,
-                "pre": pre, "tail": tail, "np_seed": 0, "stepwise": False, "exact": True}
-    src = rng.choice([0, 9, rng.randrange(n)])
-    pre = [["Fock", [1], [src], False]]
-    tail = []
-    a = src
-    for _ in range(3):
-        b = rng.choice([x for x in range(n) if x != a])
-        if 9 not in (a, b) and rng.random() < 0.5:
-            b = 9
-        tail.append([rng.choice(["BSgate", "MZgate"]), [round(rng.uniform(0.3, 1.2), 3), round(rng.uniform(-2, 2), 3)], [a, b] if rng.random() < 0.5 else [b, a], False])
-        a = b
-    tail.insert(rng.randint(1, 3), ["LossChannel", [round(rng.uniform(0.2, 0.8), 3)], [a], False] if rng.random() < 0.5 else ["Rgate", [round(rng.uniform(-3, 3), 3)], [a], False])
+    j = rng.randrange(9)
+    re, im = np.zeros([c] * n), np.zeros([c] * n)
+    e9, ej = [0] * n, [0] * n
+    e9[9], ej[j] = 1, 1
+    th = rng.uniform(0.3, 1.2)
+    re[tuple(e9)] = math.cos(th)
+    im[tuple(ej)] = math.sin(th)
+    pre = [["Ket", [re.tolist(), im.tolist()], list(range(n)), False]]
+    tail = [["Rgate", [round(rng.uniform(-3, 3), 3)], [9], False], ["CKgate", [round(rng.uniform(-3, 3), 3)], rng.choice([[9, j], [j, 9]]), False],
+            ["Kgate", [round(rng.uniform(-3, 3), 3)], [rng.choice([9, j])], False]]
+    if two_mode:
+        a = 9
+        for _ in range(2):
+            b = rng.choice([x for x in range(n) if x != a])
+            tail.append([rng.choice(["BSgate", "MZgate"]), [round(rng.uniform(0.3, 1.2), 3), round(rng.uniform(-2, 2), 3)], [a, b] if rng.random() < 0.5 else [b, a], False])
+            a = b
     return {"check": "fock-exact", "backend": "fock-pure", "mode": "many-modes", "n": n, "hbar": 2, "cutoff": c,
             "pre": pre, "tail": tail, "np_seed": 0, "stepwise": False, "exact": True}
 
@@ -802,7 +861,7 @@ def gen_fock_exact_case(rng, big=False, two_mode=True):
             cmd, u2 = _ket_cmd(rng, c, rng.sample(live, kk), B - used, rng.random() < 0.4)
             used += u2
         elif r < 0.93:
-            cmd = ["MeasureFockSel", [rng.choice([0, 0, 1, rng.randint(0, B)])], [rng.choice(live)], False]
+            cmd = ["MeasureFockSel", [rng.choice([0, 0, 1, rng.randint(0, B)])], [rng.choice(live)], False] if rng.random() < 0.6 else ["MeasureFock", [], rng.sample(live, rng.randint(1, len(live))), False]
         elif r < 0.97 and len(live) < 3 and total < 5:
             cmd = ["New", [], [total], False]
             live.append(total)
@@ -815,11 +874,55 @@ def gen_fock_exact_case(rng, big=False, two_mode=True):
             continue
         tail.append(cmd)
     return {"check": "fock-exact", "backend": "fock-pure" if pure else "fock-mixed", "mode": kind, "n": n, "hbar": rng.choice(HBARS), "cutoff": c,
-            "pre": pre, "tail": tail, "np_seed": 0, "stepwise": True, "exact": True}
+            "pre": pre, "tail": tail, "np_seed": rng.randrange(2 ** 31), "stepwise": True, "exact": True}
+
+
+def gen_fock_reduce_case(rng):
+    """An entangled random ket on all of 2-3 modes (complex amplitudes, below the cutoff), then one mode is deleted / re-prepared / measured /
+    emptied, then a passive gate on what remains: the reduced state of the other modes must be a state."""
+    c = rng.choice([3, 3, 4])
+    n = rng.choice([2, 3, 3])
+    pure = rng.random() < 0.5
+    B = c - 1
+    order = rng.sample(range(n), n)
+    cmd, used = _ket_cmd(rng, c, order, B, rng.random() < 0.25)
+    pre = [cmd]
+    if rng.random() < 0.5:
+        pre.append(["BSgate", [round(rng.uniform(0.3, 1.2), 3), round(rng.uniform(-2, 2), 3)], rng.sample(range(n), 2), False])
+    m = rng.randrange(n)
+    kind = rng.choice(["Del", "Vacuum", "Fock", "Ket", "DensityMatrix", "MeasureFockSel", "MeasureFock", "LossChannel"])
+    live = list(range(n))
+    if kind == "Del":
+        red = ["Del", [], [m], False]
+        live.remove(m)
+    elif kind == "Vacuum":
+        red = ["Vacuum", [], [m], False]
+    elif kind == "Fock":
+        red = ["Fock", [rng.randint(0, B - used)], [m], False]
+    elif kind in ("Ket", "DensityMatrix"):
+        red, _ = _ket_cmd(rng, c, [m], B - used, kind == "DensityMatrix")
+    elif kind == "MeasureFockSel":
+        red = ["MeasureFockSel", [rng.choice([0, 0, 1, 2])], [m], False]
+    elif kind == "MeasureFock":
+        red = ["MeasureFock", [], [m], False]
+    else:
+        red = ["LossChannel", [rng.choice([0.0, 0.0, 0.5])], [m], False]
+    tail = [red]
+    if len(live) >= 2 and rng.random() < 0.6:
+        g = bc.weak_cmd(rng, len(live), ["BSgate", "MZgate", "CKgate"])
+        g[2] = [live[i] for i in g[2]]
+        tail.append(g)
+    d = {"check": "fock-exact", "backend": "fock-pure" if pure else "fock-mixed", "mode": "reduce-" + kind, "n": n, "hbar": 2, "cutoff": c,
+         "pre": pre, "tail": tail, "np_seed": rng.randrange(2 ** 31), "stepwise": True, "exact": True}
+    if kind != "Del" and rng.random() < 0.5:
+        d["sub"] = rng.sample(range(n), rng.randint(1, n))
+    return d
 
 
 def search_fock_exact(ctx):
     rng = ctx.rng
+    run_family(ctx, lambda: gen_fock_reduce_case(rng), ctx.budget(40, 400),
+               lambda d: "fock-exact-%s" % d["mode"], lambda d: True)
     run_family(ctx, lambda: gen_fock_exact_case(rng), ctx.budget(110, 1100),
                lambda d: "fock-exact-%s-%s" % (d["backend"], d["mode"]), lambda d: True)
     run_family(ctx, lambda: gen_fock_exact_case(rng, big=True, two_mode=not ctx.quick), ctx.budget(1, 6),
@@ -887,6 +990,90 @@ def gen_fock_trunc_case(rng):
         cmds.append(c)
     return {"check": "fock-trunc", "backend": "fock-pure" if pure else "fock-mixed", "mode": "low-energy", "n": n, "hbar": rng.choice(HBARS), "cutoff": cutoff,
             "pre": cmds[:1], "tail": cmds[1:], "np_seed": 0, "stepwise": True, "truncation": True}
+
+
+def gen_fock_block_case(rng):
+    """One operation (sizeable parameters) on number-state inputs at a small cutoff c and at a large cutoff C: truncated gate matrices,
+    states and Kraus operators are exact sub-blocks, so rho_c must equal the c-block of rho_C (this is what 'trace is lost only through
+    truncation' means for one operation; the cubic phase gate is defined by a truncated exponential and is not part of this family)."""
+    n = rng.choice([1, 2])
+    c = rng.choice([3, 4, 5, 6])
+    C = c + 26 if n == 1 else 16
+    pure = rng.random() < 0.5
+    ang = lambda: rng.choice([0.0, math.pi / 2, round(rng.uniform(-3, 3), 3)])
+    sg = lambda: rng.choice([1, -1])
+    pre = []
+    for m in range(n):
+        k = rng.choice([0, 0, 1, 2, c - 1 if n == 1 else min(c - 1, 3)])
+        if k and k < c:
+            pre.append(["Fock", [k], [m], False])
+    m = rng.randrange(n)
+    two = rng.sample(range(n), 2) if n == 2 else None
+    name = rng.choice(["Dgate", "Sgate", "Xgate", "Zgate", "Rgate", "Kgate", "LossChannel", "Coherent", "Squeezed", "DisplacedSqueezed", "Thermal"]
+                      + (["S2gate", "S2gate", "S2gate", "BSgate", "MZgate", "CKgate"] * 2 if n == 2 else []))
+    dag = rng.random() < 0.25
+    big = n == 1
+    if name == "Dgate":
+        op = [name, [round(rng.uniform(0.1, 1.2 if big else 0.6), 3), ang()], [m], dag]
+    elif name == "Sgate":
+        op = [name, [round(rng.uniform(0.1, 0.8 if big else 0.45), 3) * sg(), ang()], [m], dag]
+    elif name in ("Xgate", "Zgate"):
+        op = [name, [round(rng.uniform(-1.5, 1.5) if big else rng.uniform(-0.8, 0.8), 3)], [m], dag]
+    elif name in ("Rgate", "Kgate"):
+        op = [name, [ang()], [m], dag]
+    elif name == "LossChannel":
+        op = [name, [rng.choice([0.0, 1.0, round(rng.uniform(0.05, 0.95), 3)])], [m], False]
+    elif name == "Coherent":
+        op = [name, [round(rng.uniform(0.1, 1.2 if big else 0.6), 3), ang()], [m], False]
+    elif name == "Squeezed":
+        op = [name, [round(rng.uniform(0.1, 0.8 if big else 0.45), 3) * sg(), ang()], [m], False]
+    elif name == "DisplacedSqueezed":
+        op = [name, [round(rng.uniform(0.1, 0.8 if big else 0.4), 3), ang(), round(rng.uniform(0.1, 0.5 if big else 0.3), 3) * sg(), ang()], [m], False]
+    elif name == "Thermal":
+        op = [name, [round(rng.uniform(0.05, 1.0 if big else 0.4), 3)], [m], False]
+    elif name == "S2gate":
+        op = [name, [round(rng.uniform(0.1, 0.5), 3) * sg(), ang()], two, dag]
+    elif name in ("BSgate", "MZgate"):
+        op = [name, [ang(), ang()], two, dag]
+    else:
+        op = [name, [ang()], two, dag]
+    return {"check": "fock-block", "backend": "fock-pure" if pure else "fock-mixed", "n": n, "cutoff": c, "big": C, "hbar": rng.choice(HBARS), "cmds": pre + [op]}
+
+
+def eval_fock_block(d):
+    n, c, C = d["n"], d["cutoff"], d["big"]
+    spec = {"n": n, "cmds": d["cmds"]}
+    op = d["cmds"][-1][0]
+    try:
+        small = fock_matrix(run_spec(spec, d["backend"], c, d["hbar"]), n, c)
+        large = fock_matrix(run_spec(spec, d["backend"], C, d["hbar"]), n, C)
+    except Exception as e:
+        return ("physical:fock:raises:%s:%s" % (type(e).__name__, op), "running %s raised %r" % (d["cmds"], e))
+    idx = [int(np.ravel_multi_index(ix, [C] * n)) for ix in np.ndindex(*([c] * n))]
+    block = large[np.ix_(idx, idx)]
+    if abs(np.trace(large).real - 1) > 1e-6:
+        return "skip"       # (the reference itself is truncated: parameters too large for this family)
+    dev = float(np.abs(small - block).max())
+    if dev > 1e-8:
+        return ("fock:not-a-block-of-the-untruncated-state:%s" % op, "after %s the state at cutoff %d differs by %.3g from the same state computed at cutoff %d and cut down "
+                "(trace %.9f vs %.9f): more than truncation happened" % (d["cmds"], c, dev, C, np.trace(small).real, np.trace(block).real))
+    return None
+
+
+def search_fock_block(ctx):
+    rng = ctx.rng
+    done = tries = 0
+    want = ctx.budget(90, 900)
+    while done < want and tries < 3 * want:
+        tries += 1
+        d = gen_fock_block_case(rng)
+        r = eval_fock_block(d)
+        if r == "skip":
+            continue
+        done += 1
+        ctx.case(d, nontrivial=True, bucket="fock-block-%s" % d["cmds"][-1][0])
+        if r:
+            ctx.counterexample(r[0], r[1], d)
 
 
 def search_fock_trunc(ctx):
@@ -1031,6 +1218,7 @@ def search(ctx):
     search_bosonic_nongauss(ctx)
     search_fock_exact(ctx)
     search_fock_trunc(ctx)
+    search_fock_block(ctx)
     search_units(ctx)
     search_fock_top(ctx)
 
@@ -1048,12 +1236,16 @@ def replay(ctx, data):
         v, m = check_state(d["backend"], d["spec"], d.get("cutoff", 8), d.get("hbar", 2))
         print("state:", v, m)
         return bool(v)
-    if chk == "bosonic-dm":
+    if chk == "bos-dm":
         st = run_spec({"n": d["n"], "cmds": d["cmds"]}, "bosonic", hbar=d.get("hbar", 2))
         rho = np.array(st.reduced_dm([d.get("mode", 0)], cutoff=d.get("dm_cutoff", 10)))
         dev = float(np.abs(rho - rho.conj().T).max())
         print("bosonic reduced_dm: max |rho - rho^dagger| =", dev)
         return dev > 1e-8
+    if chk == "fock-block":
+        r = eval_fock_block(d)
+        print("block:", r)
+        return bool(r) and r != "skip"
     if chk == "hbar":
         r = eval_hbar(d)
         print("hbar:", r)
